@@ -29,6 +29,13 @@ HARNESS = os.path.join(ALT, "harness") if ALT else os.path.join(ROOT, "harness")
 OUT = os.path.join(ALT, "out") if ALT else os.path.join(ROOT, "out")
 MODEL = os.path.join(LEAN, ".lake", "build", "bin", "enr_model")
 HBIN = os.path.join(HARNESS, "target", "debug", "enr-harness")
+# the same harness built without debug assertions and overflow checks (profile `nodebug`): code
+# under debug_assert!/cfg(debug_assertions) behaves differently there; families named "<fam>@nodebug"
+HBIN_ND = os.path.join(HARNESS, "target", "nodebug", "enr-harness")
+
+
+def hbin(fam_or_path):
+    return HBIN_ND if "@nodebug" in fam_or_path or "nodebug-" in os.path.basename(fam_or_path) else HBIN
 ALLOWED_AXIOMS = {"propext", "Classical.choice", "Quot.sound"}
 BANNED = re.compile(r"\b(sorry|admit|native_decide|bv_decide|implemented_by|unsafe)\b|^\s*axiom\s|maxHeartbeats\s+0\b")
 NCHUNK = 16
@@ -37,12 +44,12 @@ NCHUNK = 16
 FAMILIES = {
     "C01": ["dec", "hist"],
     "C02": ["dec"],
-    "C03": ["dec", "stream", "txt", "nid", "ck", "hist", "size", "acc", "eq", "deep"],
+    "C03": ["dec", "stream", "txt", "nid", "ck", "hist", "size", "acc", "eq", "deep", "hist@nodebug"],
     "C04": ["dec", "hist", "acc"],
-    "C05": ["hist", "size", "acc", "eq"],
-    "C06": ["hist", "size"],
-    "C07": ["hist", "size", "acc"],
-    "C08": ["hist", "acc", "size"],
+    "C05": ["hist", "size", "acc", "eq", "hist@nodebug"],
+    "C06": ["hist", "size", "hist@nodebug"],
+    "C07": ["hist", "size", "acc", "hist@nodebug"],
+    "C08": ["hist", "acc", "size", "hist@nodebug"],
     "C09": ["size", "hist", "dec"],
     "C10": ["dec", "hist", "ck"],
     "C11": ["dec", "stream", "hist"],
@@ -74,6 +81,7 @@ FIELD_OWNERS = [
     (r"(build|step)\.(signreq|signcalls)$", ["C05", "C06", "C01"]),
     (r"acc\.(id|ip4|ip6|tcp4|tcp6|udp4|udp6|udp4s|udp6s|tcp4s|tcp6s|udpr|tcpr|client|get)$", ["C14"]),
     (r"acc\.(text|disp)$", ["C12"]),
+    (r"acc\.encs$", ["C04"]),
     (r"acc\.(pk|pkkey|nidpk)$", ["C10"]),
     (r"acc\.(dbg|conv)$", ["C03"]),
     (r"acc\.xdec$", ["C11"]),
@@ -196,12 +204,15 @@ def mine_keys():
     return sorted(keys)
 
 
-def build_harness():
+def build_harness(nodebug=False):
     env = dict(os.environ, CARGO_NET_OFFLINE="true")
     lock = os.path.join(HARNESS, "Cargo.lock")
     if not os.path.exists(lock):
         shutil.copy(os.path.join(REPO, "Cargo.lock"), lock)
     rc, out = run(["cargo", "build", "--offline"], cwd=HARNESS, timeout=3600, env=env)
+    if rc == 0 and nodebug:
+        rc, out2 = run(["cargo", "build", "--offline", "--profile", "nodebug"], cwd=HARNESS, timeout=3600, env=env)
+        out += out2
     return rc, out
 
 
@@ -218,7 +229,7 @@ def campaign(prop, fam, tier, seed, workdir):
             os.remove(os.path.join(workdir, f))
     t0 = time.time()
     # a call of the library that does not return shows up as a harness that does not finish
-    rc, out = run([HBIN, "gen", fam, tier, str(seed), prefix, str(NCHUNK)], timeout=1200 if tier == "quick" else 5400)
+    rc, out = run([hbin(fam), "gen", fam.split("@")[0], tier, str(seed), prefix, str(NCHUNK)], timeout=1200 if tier == "quick" else 5400)
     if rc != 0:
         # the process died (a stack overflow or abort cannot be caught): when the family wrote its case
         # scripts first, the first case without a completed trace is the culprit
@@ -289,31 +300,31 @@ def extract_block(trace, lineno):
     return lines[j:k]
 
 
-def still_fails(lines, prop, pred, workdir):
+def still_fails(lines, prop, pred, workdir, binary=None):
     cand = os.path.join(workdir, "shrink.case")
     tr = os.path.join(workdir, "shrink.trace")
     with open(cand, "w") as fh:
         fh.write("\n".join(lines) + "\n")
-    rc, _ = run([HBIN, "replay", cand, tr], timeout=120)
+    rc, _ = run([binary or HBIN, "replay", cand, tr], timeout=120)
     if rc != 0:
         return False
     _, rc, out = model_on(tr)
     return any(l.startswith(f"PROP {prop} FAIL pred={pred} ") for l in out.splitlines())
 
 
-def shrink_case(block, prop, pred, workdir):
+def shrink_case(block, prop, pred, workdir, binary=None):
     """greedy minimisation of an operation history: drop steps while the same predicate keeps failing"""
     inputs = [l for l in block if l.startswith(("case ", "key ", "init ", "step ", "end"))]
     if not any(l.startswith("case ") for l in inputs):
         return block, 0
     head = [l for l in inputs if l.startswith(("case ", "key ", "init "))]
     steps = [l for l in inputs if l.startswith("step ")]
-    if not still_fails(head + steps + ["end"], prop, pred, workdir):
+    if not still_fails(head + steps + ["end"], prop, pred, workdir, binary):
         return block, 0
     removed = 0
     # drop a suffix first, then single steps from the end
     lo = len(steps)
-    while lo > 0 and still_fails(head + steps[:lo - 1] + ["end"], prop, pred, workdir):
+    while lo > 0 and still_fails(head + steps[:lo - 1] + ["end"], prop, pred, workdir, binary):
         lo -= 1
         removed += 1
     steps = steps[:lo]
@@ -322,7 +333,7 @@ def shrink_case(block, prop, pred, workdir):
     while i >= 0 and budget > 0:
         cand = steps[:i] + steps[i + 1:]
         budget -= 1
-        if still_fails(head + cand + ["end"], prop, pred, workdir):
+        if still_fails(head + cand + ["end"], prop, pred, workdir, binary):
             steps = cand
             removed += 1
         i -= 1
@@ -376,13 +387,14 @@ def main():
 
     # 2. the tie: rebuild the harness against /repo's working tree
     mined = mine_keys()
-    rc, out = build_harness()
+    need_nd = any("@nodebug" in f for f in FAMILIES[prop]) or bool(a.replay and "profile=nodebug" in open(a.replay, errors="replace").read(2000))
+    rc, out = build_harness(need_nd)
     harness_ok = rc == 0
     results = []
     if a.replay:
         if harness_ok:
             tr = os.path.join(workdir, "replay.trace")
-            rc, o = run([HBIN, "replay", a.replay, tr])
+            rc, o = run([HBIN_ND if "profile=nodebug" in open(a.replay, errors="replace").read(2000) else HBIN, "replay", a.replay, tr])
             _, rc2, mo = model_on(tr)
             bad = [l for l in mo.splitlines() if l.startswith(("PROP " + prop, "DIFF "))]
             print("\n".join(l for l in mo.splitlines() if l.startswith(("PROP", "DIFF", "STAT"))))
@@ -428,12 +440,14 @@ def main():
         pred = tok(line, "pred")
         if pred and block and block[0].startswith("case ") and len(violations) < 3:
             try:
-                block, removed = shrink_case(block, prop, pred, workdir)
+                block, removed = shrink_case(block, prop, pred, workdir, hbin(path))
             except Exception as ex:  # shrinking is best effort
                 removed = 0
         rp = os.path.join(workdir, f"violation-{n}.case")
         with open(rp, "w") as fh:
             fh.write(f"# {kind}\n# {line}\n# shrunk: {removed} steps removed\n")
+            if path and "@nodebug" in path:
+                fh.write("# profile=nodebug (harness built without debug assertions and overflow checks)\n")
             fh.write("\n".join(block) + "\n")
         violations.append((kind, rp, line + suffix))
 
